@@ -24,6 +24,11 @@ CLAIMED = {
    note="Trusted: Coq kernel, translator, extraction, driver, harness. ASCII_RE / QUOTED_SPLIT_RE / QUOTED_RE / LOWERCASE_QUOTED_RE enter the model through their reading as maximal ASCII runs / valid-escape tokens (pinned by reflexivity lemmas on the generated ASTs and exercised by the regex correspondence). Lone surrogates are outside str scope (quote() raises on them).",
    technique="Coq proofs on a token model of percent-escapes + extracted property deciders run on implementation outputs + differential correspondence",
    ref="6 C14"),
+ "C20": dict(
+   text="Proved in Coq for all strings (closed under the global context): what PROTOCOL_RE.match accepts (<= 64 letters, optional ':', '//'), obtained from the generated regex AST through the verified regex metatheory (backtracking matcher sound and complete w.r.t. a declarative semantics; an anchored pattern is found at most once); strip_protocol removes exactly that prefix; for alphabetic protocols of 1..64 letters ensure_protocol and force_protocol are idempotent, force_protocol's result starts with 'p://', strip_protocol of either result equals strip_protocol of the input. force == ensure o strip is PARTIAL: proved under the guard 'what remains after stripping has no protocol' and refuted without it (known finding F-B1, class nested_protocol). Builders: format_url appends no '?' when nothing is retained and joins base and path by exactly one '/' (proved); that the query decodes back to the retained arguments, the fragment, URLFormatter default merging, add_query_argument / get_query_argument read-back and pathsplit are checked by parsing the implementation's result back (deciders in the harness) and by model-vs-implementation correspondence, not proved. Known finding F-B3 (bases that already carry a query / fragment).",
+   note="Trusted: Coq kernel, translator (PROTOCOL_RE AST, pinned structurally), extraction, driver, harness. urllib.quote / unquote models tied by leaf correspondence. Argument values enter the model through their str() rendering computed by CPython (ints, floats).",
+   technique="Coq proofs over the generated regex AST via a verified regex metatheory + differential correspondence + parse-back deciders",
+   ref="6 C20"),
 }
 
 NOT_YET = {}
